@@ -15,6 +15,7 @@ def run(chk):
     X.handlers_dispatch(chk, "C08")
     from . import misc_contracts
     misc_contracts.context_construction(chk, "C08")
+    CC.decorators(chk, "C08")   # the name an operation is recorded under when none is given is the ORIGINAL function's name, in every invocation
     # "parent links reported to the backend always name the enclosing context's identifier": every update a handler sends (START, RETRY,
     # SUCCEED, FAIL) carries the id and parent id of the identifier it was constructed with
     from .handlers import explore
